@@ -121,6 +121,35 @@ TFUN = {
     5: lambda t, rdd: rdd.map(lambda x: x + int(t)),
     6: lambda rdd: None,
 }
+
+
+# the same functions with other signatures: transform() decides by func.__code__.co_argcount == 1
+def _t7(rdd, *, n=1):
+    return rdd.map(lambda x: x + n)
+
+
+def _t8(rdd, *more):
+    assert not more
+    return rdd.filter(PFUN[2])
+
+
+def _t9(rdd, **kw):
+    assert not kw
+    return rdd
+
+
+def _t10(rdd, n=2):
+    # two positional parameters: called as (time, rdd); the RDD arrives in the second one
+    return n
+
+
+class _Shift:
+    def m(self, t, rdd):
+        return rdd.map(lambda x: x + int(t))
+
+
+TFUN.update({7: _t7, 8: _t8, 9: _t9, 10: _t10, 11: _Shift().m})
+
 PPFUN = {
     0: lambda p: p,
     1: lambda p: [sum(p)],
@@ -231,6 +260,7 @@ class _Run:
         self.dirs = {}
         self.instrumented = 0
         self.final = False
+        self.tnow = 0
         self.exact = set()
 
     def index_of(self, ssc, d):
@@ -300,7 +330,7 @@ class _Run:
                 r = s.slice(call[2], call[3])
             elif op == FOREACH:
                 cell = [None]
-                s.foreachRDD(self._sink(cell, ssc if len(call) > 2 and call[2] else None))
+                s.foreachRDD(self._sink(cell, ssc if len(call) > 2 and call[2] else None, call[3] if len(call) > 3 else 0))
                 r = ssc._dstreams[-1]
                 cell[0] = len(ssc._dstreams) - 1
                 self.sink_nodes[cell[0]] = h
@@ -316,12 +346,33 @@ class _Run:
             handles.append(r)
         return handles
 
-    def _sink(self, cell, stop_ssc=None):
-        def action(t, rdd):
+    def _sink(self, cell, stop_ssc=None, sig=0):
+        def record(t, rdd):
             self.events.append((2, cell[0], int(t), None if rdd is None else
                                 (exact_contents if cell[0] in self.exact else canon_contents)(rdd.collect())))
             if stop_ssc is not None and self.final:
                 stop_ssc.stop()      # "stop once enough data has been seen", from inside the output action
+
+        # signature of the function handed to foreachRDD: (time, rdd) forms and one-positional-parameter forms
+        # (for those the time is the harness's own tick time)
+        if sig == 1:
+            def action(rdd, *, tag=None):
+                record(self.tnow, rdd)
+        elif sig == 2:
+            def action(rdd, *more):
+                assert not more
+                record(self.tnow, rdd)
+        elif sig == 3:
+            def action(rdd, **kw):
+                record(self.tnow, rdd)
+        elif sig == 4:
+            action = lambda rdd: record(self.tnow, rdd)      # noqa: E731
+        elif sig == 5:
+            def action(t, rdd=None):
+                record(t, rdd)
+        else:
+            def action(t, rdd):
+                record(t, rdd)
         return action
 
     def instrument(self, ssc):
@@ -389,6 +440,7 @@ class _Run:
                             started = True
                         continue
                     t, env = entry[0], entry[1]
+                    self.tnow = t
                     for h, ls in env:
                         if h not in self.dirs:
                             continue
@@ -511,15 +563,15 @@ def ref_op(call, ins, t):
         return out
     if op == TRANSFORM:
         f = call[2]
-        if f in (0, 1):
+        if f in (0, 1, 9, 10):
             return list(a)
-        if f == 2:
+        if f in (2, 7):
             return [x + 1 for x in a]
-        if f == 3:
+        if f in (3, 8):
             return [x for x in a if x % 2 == 0]
         if f == 4:
             return [2 * x for x in a if x > 0]
-        if f == 5:
+        if f in (5, 11):
             return [x + t for x in a]
     if op == REPARTITION:
         return list(a)
@@ -629,7 +681,7 @@ def oracle(case, result):
             b_ = call[2] if op in (UNION, COGROUPED, TRANSFORMWITH) else None
             ia, za = inst.get(a_, False), zp.get(a_, False)
             if op in (MAP, FLATMAP, FILTER, MAPVALUES, FLATMAPVALUES, MAPPARTITIONS, MAPPARTITIONSWITHINDEX) or \
-                    (op == TRANSFORM and call[2] in (2, 3, 4, 5)):
+                    (op == TRANSFORM and call[2] in (2, 3, 4, 5, 7, 8, 11)):
                 inst[h], zp[h] = False, za            # MapPartitionsRDD: the parent's partitions
             elif op == TRANSFORM or (op == TRANSFORMWITH and call[3] == 1):
                 inst[h], zp[h] = ia, za               # returns the RDD it was given
@@ -679,9 +731,17 @@ def oracle(case, result):
 
 # ---------------------------------------------------------------- generation
 I, S, KI, KL, KT, KC = 'I', 'S', 'KI', 'KL', 'KT', 'KC'
+# values that are not mutually orderable (None among numbers, strings mixed with ints, tuples mixed with scalars):
+# M = such elements, KM = (int key, such a value), X = whatever comes out of them (generic operations only)
+M, KM, X = 'M', 'KM', 'X'
+MIXED = [None, 1, 2, 3, 'a', 'b', (1, 2), None, 1, 'a']
 
 
 def _elem(rng, ty):
+    if ty == M:
+        return rng.choice(MIXED)
+    if ty == KM:
+        return (rng.randint(0, 2), rng.choice(MIXED))
     if ty == I:
         return rng.randint(-3, 9)
     return (rng.randint(0, 2), rng.randint(-3, 9))
@@ -695,6 +755,7 @@ def _unary_choices(ty):
     """(call-without-stream, result type) choices applicable to a stream of element type ty."""
     out = []
     ident = [(MAP, 0), (FILTER, 0), (FILTER, 1), (FLATMAP, 0), (FLATMAP, 2), (TRANSFORM, 0), (TRANSFORM, 1),
+             (TRANSFORM, 9), (TRANSFORM, 10),
              (MAPPARTITIONS, 0), (MAPPARTITIONS, 2)]
     for op, f in ident:
         out.append(((op, f), ty))
@@ -712,9 +773,14 @@ def _unary_choices(ty):
         out += [((FLATMAP, 1), I), ((FLATMAP, 3), KI), ((FILTER, 2), I), ((FILTER, 3), I), ((COUNTBYVALUE,), KI)]
         for f in (0, 1, 2):
             out.append(((REDUCE, f), I))
-        for f in (2, 3, 4, 5):
+        for f in (2, 3, 4, 5, 7, 8, 11):
             out.append(((TRANSFORM, f), I))
         out.append(((MAPPARTITIONS, 1), I))
+    if ty == M:
+        out += [((COUNTBYVALUE,), X), ((COUNTBYVALUE,), X), ((FLATMAP, 0), M)]
+    if ty == KM:
+        out += [((GROUPBYKEY,), X), ((GROUPBYKEY,), X), ((MAPVALUES, 0), KM), ((MAP, 6), M), ((FILTER, 4), KM),
+                ((FLATMAPVALUES, 0), KM)]
     if ty == S:
         out.append(((MAP, 8), I))
         out.append(((MAP, 8), I))
@@ -762,6 +828,8 @@ def _queue_batches(rng, ty, one):
 def _big_batch(rng, ty):
     """A batch for an RDD with several partitions: a key's values span partitions."""
     n = rng.randint(3, 7)
+    if ty in (M, KM):
+        return [_elem(rng, ty) for _ in range(n)]
     if ty == I:
         return [rng.randint(-3, 9) for _ in range(n)]
     return [(rng.randint(0, 1), rng.randint(-3, 9)) for _ in range(n)]
@@ -797,7 +865,7 @@ def _add_source(rng, prog, types, depth, with_files, first):
         prog.append('FILE')
         types.append(S)
     else:
-        ty = rng.choice([I, I, KI])
+        ty = rng.choice([I, I, I, KI, KI, M, KM])
         one = rng.random() < 0.75
         default = None if rng.random() < 0.5 else ([] if rng.random() < 0.2 else _batch(rng, ty))
         bs = _queue_batches(rng, ty, one)
@@ -812,7 +880,7 @@ def _add_source(rng, prog, types, depth, with_files, first):
 def _add_actions(rng, prog, types, depth, k):
     live = [h for h in range(len(prog)) if types[h] is not None]
     for s in rng.sample(live, min(len(live), k)):
-        prog.append((FOREACH, s))
+        prog.append((FOREACH, s) if rng.random() < 0.6 else (FOREACH, s, 0, rng.randrange(6)))
         types.append(None)
         depth.append(9)
 
@@ -888,7 +956,7 @@ def _maybe_stopper(rng, prog, p=0.25):
     acts = [h for h, c in enumerate(prog) if c != 'FILE' and c[0] == FOREACH]
     if acts and rng.random() < p:
         h = rng.choice(acts)
-        prog[h] = (FOREACH, prog[h][1], 1)
+        prog[h] = (FOREACH, prog[h][1], 1) + tuple(prog[h][3:4])
 
 
 def gen_case(rng, with_files=False, with_none=False):
@@ -1046,6 +1114,25 @@ def systematic_kinds():
             for ck in (K_LIST, K_TUPLE, K_GEN, K_ITER, K_DEQUE):
                 src = (QUEUE, [list(b0), list(b1)], one, list(d), ([0, 0], 0, (ck, [K_LIST, K_TUPLE], K_GEN, 0)))
                 cases.append(([src] + body + acts(4), [(t, []) for t in (1, 2, 3, 4, 5)]))
+    # values that are not mutually orderable / signatures of transform and foreachRDD functions
+    mixed = [[1, None, 1, 'a', (1, 2), None, 2], [], ['b', 'a', 3, 'a'], [None]]
+    kmixed = [[(0, 1), (1, None), (0, 'a'), (1, (1, 2)), (0, None)], [], [(2, 'b'), (2, 3)]]
+    h4 = [(t, []) for t in (1, 2, 3, 4, 5)]
+    for one in (True, False):
+        for k in (0, 2):
+            meta = ([k if one else 0] * 4, 0, (K_LIST, [K_LIST] * 4, K_LIST, 0))
+            sm = (QUEUE, [list(b) for b in mixed], one, None, meta)
+            cases.append(([sm, (COUNTBYVALUE, 0), (COUNT, 0), (COUNT, 1), (FOREACH, 1), (FOREACH, 2), (FOREACH, 3)], h4))
+            cases.append(([sm, (UNION, 0, 0), (REPARTITION, 1, 2), (COUNTBYVALUE, 2), (FILTER, 0, 0), (FOREACH, 3), (FOREACH, 4)], h4))
+            skm = (QUEUE, [list(b) for b in kmixed], one, None, ([k if one else 0] * 3, 0, (K_LIST, [K_LIST] * 3, K_LIST, 0)))
+            cases.append(([skm, (GROUPBYKEY, 0), (MAP, 0, 6), (COUNTBYVALUE, 2), (COUNT, 1), (FOREACH, 1), (FOREACH, 3), (FOREACH, 4)], h4))
+    si0 = (QUEUE, [[1, 2, 2], [], [4]], True, [5, 6])
+    for f in (0, 1, 2, 3, 4, 5, 7, 8, 9, 10, 11):
+        for sig in range(6):
+            cases.append(([si0, (TRANSFORM, 0, f), (FOREACH, 1, 0, sig), (COUNT, 1), (FOREACH, 3, 0, (sig + 1) % 6)],
+                          [(t, []) for t in (1, 2, 3, 4)]))
+            cases.append(([si0, (FOREACH, 0, 0, sig), (TRANSFORM, 0, f), (FOREACH, 2, 0, sig)],
+                          [(2,), (1, []), (2, []), (2,), (3, []), (4, [])]))
     big_ki = [[(0, 1), (1, 2), (0, 5), (0, 3), (1, 7), (0, 2)], [(1, 4), (0, 6), (1, 1), (1, 3)]]
     big_i = [[5, 1, 4, 0, 3, 2, 8], [0, 4, 2, 2]]
     hist = [(t, []) for t in (1, 2, 3)]
